@@ -147,6 +147,26 @@ def run(ctx):
                 continue
             r = ctx.crng
             pool = programs.Pool(oq, r, wd)
+            if r.random() < 0.25:
+                # the quantizer given an explicit scale: right layout, or the layout of the *other* end axis (same number of
+                # values when the tensor is square): it either refuses (ValueError) or returns a consistent tensor
+                n = int(r.choice([2, 3, 6, 8]))
+                shp = [(n, n), (n, 3, n), (n, n, 2)][int(r.integers(3))]
+                ax = int(r.choice([0, -1]))
+                other = -1 if ax == 0 else 0
+                xs = pool.randn(shp)
+                qtn_ = ["qint8", "qfloat8_e4m3fn", "qfloat8_e5m2"][int(r.integers(3))]
+                use = ax if r.random() < 0.4 else other
+                try:
+                    sc_ = oq.absmax_scale(xs, oq.qtypes[qtn_], use)
+                    tq = oq.SymmetricQuantizer.apply(xs, oq.qtypes[qtn_], ax, sc_)
+                    ctx.count("explicit_scale_accepted")
+                    direct_check(ctx, tq, "SymmetricQuantizer.apply", expect_qtype=qtn_)
+                except ValueError:
+                    ctx.count("explicit_scale_refused")
+                except Exception as e:
+                    ctx.violation(dict(prop="C06", kind="explicit_scale_raises_other_exception", exc=type(e).__name__),
+                                  dict(shape=list(shp), axis=ax, scale_axis=use, msg=str(e)[:200]))
             t, kind, lay, shape = initial(oq, r, wd, pool)
             direct_check(ctx, t, "quantize")
             if lay == "transposed" and t.ndim >= 2:
